@@ -346,34 +346,9 @@ Proof.
   rewrite H. destruct (g t x) as [y|e| |]; try reflexivity. rewrite IH. reflexivity.
 Qed.
 
+(* the two fixpoints have convertible bodies (none_echo, kw_step, map_step unfold to the text of Core.mar) *)
 Lemma mar_is_marG rt E : forall m T x, mar rt E m T x = marG rt E none_echo m T x.
-Proof.
-  induction m as [|n IH]; intros T x; [reflexivity|].
-  assert (Hstep : forall cd acc kv,
-    bind acc (fun kw =>
-      match fst kv with
-      | PKey f => match field_ty cd f with
-                  | Some ft => bind (mar rt E n ft (snd kv)) (fun v' => Ok (kw_set f v' kw))
-                  | None => Ok kw end
-      | k => if unhashable rt k then Raise EType else Ok kw
-      end) = kw_step rt (marG rt E none_echo n) cd acc kv).
-  { intros cd acc kv. unfold kw_step. destruct acc as [kw|e| |]; cbn [bind]; try reflexivity.
-    destruct (fst kv); try reflexivity. destruct (field_ty cd f); [|reflexivity]. rewrite IH. reflexivity. }
-  destruct T as [s| |k a|k kt vt|ts|ts|c|c|s|t'|i t'|i t'|i c|t'|t']; cbn [mar marG]; try reflexivity; try apply IH.
-  - destruct (itervalues rt x); cbn [bind]; try reflexivity. rewrite (mapM_ext _ _ (IH a)). reflexivity.
-  - destruct (iteritems rt E x); cbn [bind]; try reflexivity.
-    erewrite mapM_ext; [reflexivity|]. intros kv. unfold map_step. rewrite IH.
-    destruct (marG rt E none_echo n kt (fst kv)); cbn [bind]; try reflexivity. rewrite IH. reflexivity.
-  - destruct (itervalues rt x); cbn [bind]; try reflexivity.
-    erewrite mapM_ext; [reflexivity|]. intros tv. apply IH.
-  - destruct (isoptional ts && is_none_val rt x); [reflexivity|]. apply first_ok_ext. apply IH.
-  - destruct (E c) as [[cd|t']|]; [|apply IH|reflexivity].
-    destruct (iteritems rt E x); cbn [bind]; try reflexivity. erewrite fold_left_ext; [reflexivity|]. apply Hstep.
-  - destruct (E c) as [[cd|t']|]; [|apply IH|reflexivity].
-    destruct (iteritems rt E x); cbn [bind]; try reflexivity. erewrite fold_left_ext; [reflexivity|]. apply Hstep.
-  - destruct (E c) as [[cd|t']|]; [|apply IH|reflexivity].
-    destruct (iteritems rt E x); cbn [bind]; try reflexivity. erewrite fold_left_ext; [reflexivity|]. apply Hstep.
-Qed.
+Proof. intros m T x. reflexivity. Qed.
 
 (* ------------------------------------------------------------------ instances: is_wire *)
 Section WireInst.
@@ -387,11 +362,9 @@ Proof. intros H. cbn [is_wire]. apply Forall_forallb. exact H. Qed.
 
 Lemma wire_hashable_prim w : wire w = true -> unhashable rt w = false -> is_prim prim_atom w = true.
 Proof.
-  destruct w as [a|f|k l|k l|c l|c l]; cbn [is_wire is_prim unhashable]; intros Hw Hu; try assumption; try reflexivity.
-  - destruct k; try discriminate.
-  - discriminate.
-  - discriminate.
-  - discriminate.
+  destruct w as [a|f|k l|k l|c l|c l]; cbn [is_wire is_prim unhashable]; intros Hw Hu;
+    try assumption; try reflexivity; try discriminate.
+  destruct k; discriminate.
 Qed.
 
 Lemma wire_dict l :
@@ -458,11 +431,10 @@ Proof.
 Qed.
 
 (* repaired routine, valid inputs of fully annotated types *)
-Lemma fixed_wire_valid : Laws -> fully_annotated E robust_leaf wire_leaf true R ->
-  forall T, fa_ty robust_leaf wire_leaf true R T = true ->
+Lemma fixed_wire_valid : Laws -> forall T, fully_annotated E robust_leaf wire_leaf true R T ->
   forall m n v w, valid rt E leaf_valid n T v = true -> mar_fixed rt E m T v = Ok w -> wire w = true.
 Proof.
-  intros L [HR HF] T HT m n v w. unfold mar_fixed. revert HT.
+  intros L T (HR & HF & HT) m n v w. unfold mar_fixed. revert HT.
   apply (marG_valid rt E (none_m rt) (fun w => wire w = true) robust_leaf wire_leaf true R leaf_valid).
   - intros s x w0. apply (law_robust _ _ _ _ _ _ _ L).
   - intros _. apply none_m_wire. exact L.
@@ -478,11 +450,10 @@ Qed.
 
 (* Core.mar as it stands: none_ok = false, i.e. no NoneType member where a union (or a robust definition) hands
    an arbitrary input to it *)
-Lemma current_wire_valid : Laws -> fully_annotated E robust_leaf wire_leaf false R ->
-  forall T, fa_ty robust_leaf wire_leaf false R T = true ->
+Lemma current_wire_valid : Laws -> forall T, fully_annotated E robust_leaf wire_leaf false R T ->
   forall m n v w, valid rt E leaf_valid n T v = true -> mar rt E m T v = Ok w -> wire w = true.
 Proof.
-  intros L [HR HF] T HT m n v w. rewrite mar_is_marG. revert HT.
+  intros L T (HR & HF & HT) m n v w. rewrite mar_is_marG. revert HT.
   apply (marG_valid rt E none_echo (fun w => wire w = true) robust_leaf wire_leaf false R leaf_valid).
   - intros s x w0. apply (law_robust _ _ _ _ _ _ _ L).
   - discriminate.
@@ -531,5 +502,15 @@ Lemma literal_rejects : Laws -> forall s x m, lit_leaf s = true -> lit_member s 
 Proof.
   intros L s x m Hs Hx. cbn. split; apply (law_literal _ _ _ _ _ _ _ L); assumption.
 Qed.
+
+Lemma fixed_shape : Laws -> forall T, fully_annotated E robust_leaf wire_leaf true R T ->
+  forall m n v w, valid rt E leaf_valid n T v = true -> mar_fixed rt E m T v = Ok w -> only_list_dict w = true.
+Proof.
+  intros L T HT m n v w HV HM. eapply wire_only_list_dict. eapply fixed_wire_valid; eauto.
+Qed.
+
+Lemma fixed_deterministic : forall m T x w1 w2,
+  mar_fixed rt E m T x = Ok w1 -> mar_fixed rt E m T x = Ok w2 -> w1 = w2.
+Proof. intros m T x w1 w2 H1 H2. rewrite H1 in H2. injection H2 as <-. reflexivity. Qed.
 
 End Props.
